@@ -215,6 +215,9 @@ func (h *hostile) visible(rep int, target cid.Cid, key, val string) bool {
 
 // delivery describes one hostile delivery to be performed and observed.
 type hdelivery struct {
+	// after the delivery has settled the victim's store is closed, reopened and loaded from its
+	// cache directory before the state is observed (what the victim persisted is what counts)
+	reloadAfter bool
 	route    string         // sync | pubsub | exchange | ancestor
 	victim   int            // replica receiving
 	from     int            // hostile replica (sender on the direct channel)
@@ -630,6 +633,17 @@ func (h *hostile) perform(d *hdelivery) (string, map[string]interface{}, error) 
 	if !s.Settle() {
 		h.r.AddDirect("hang:sync", "replication did not settle", map[string]interface{}{"route": d.route, "state": sim.LastSettleState})
 	}
+	if d.reloadAfter {
+		if err := s.Reopen(d.victim); err != nil {
+			return "", nil, err
+		}
+		if err := s.Stores[d.victim].Load(h.ctx, -1); err != nil {
+			extra["reload_error"] = err.Error()
+		}
+		if !s.Settle() {
+			h.r.AddDirect("hang:reload", "store did not settle after the reload", map[string]interface{}{"route": d.route, "state": sim.LastSettleState})
+		}
+	}
 	after := h.observe(d.victim)
 	misfiled := 0
 	if d.route == "snapshot" {
@@ -698,6 +712,34 @@ func (h *hostile) colluder(rep int, x *entry.Entry) (*entry.Entry, error) {
 		t = x.Clock.Time + 1
 	}
 	return h.create(rep, h.s.Addr, p, []cid.Cid{x.Hash}, t)
+}
+
+// colluderRefs: the writer's entry names x only among its refs (the skip list of the log);
+// its next links are the heads the writer's replica holds.
+func (h *hostile) colluderRefs(rep int, x *entry.Entry) (*entry.Entry, error) {
+	p, _, _ := h.payload("colluder")
+	t := 1
+	if x.Clock != nil {
+		t = x.Clock.Time + 1
+	}
+	var next []cid.Cid
+	for _, e := range h.s.Stores[rep].OpLog().Heads().Slice() {
+		if e.GetLogID() != h.s.Addr {
+			continue
+		}
+		next = append(next, e.GetHash())
+		if e.GetClock().GetTime() >= t {
+			t = e.GetClock().GetTime() + 1
+		}
+	}
+	id := h.s.Reps[rep].Orbit.Identity()
+	e, err := entry.CreateEntryWithIO(h.ctx, h.s.Reps[rep].API, id, &entry.Entry{
+		LogID: h.s.Addr, Payload: p, Next: next, Refs: []cid.Cid{x.Hash}, Clock: entry.NewLamportClock(id.PublicKey, t),
+	}, nil, h.s.Stores[rep].IO())
+	if err != nil {
+		return nil, err
+	}
+	return e.(*entry.Entry), nil
 }
 
 func errClass(err error) int {
